@@ -102,6 +102,20 @@ def classify_exception(exc):
     return who, f'{type(exc).__name__}@{rel}:{fr.name}'
 
 
+# A changed library may hand back a value of another shape, type or container than every value seen on the pinned
+# tree; the oracle code then trips over it (IndexError on an empty comparison, TypeError on a scalar where an array was
+# promised, ...). Such an exception, raised in the oracle modules while they process a result, is reported as a
+# violation 'unprocessable_result' with the case as replay file, not as an error of the machinery: on the pinned
+# tree it never occurs (soak runs), so it carries exactly the information "the library answered differently".
+# Infrastructure failures (HarnessError raised deliberately, OSError, MemoryError, Hypothesis errors) stay exit 2.
+_VALUE_ERRORS = (IndexError, TypeError, ValueError, AttributeError, KeyError, ZeroDivisionError, OverflowError, FloatingPointError)
+_ORACLE_FILES = ('vp/props/', 'vp/sig.py', 'vp/ref_', 'vp/volt.py', 'vp/gen.py')
+
+
+def _oracle_tripped(exc, who, where):
+    return who == 'harness' and isinstance(exc, _VALUE_ERRORS) and where.split('@', 1)[-1].startswith(_ORACLE_FILES)
+
+
 def call(obs, facet, fn, *args, **kwargs):
     """
     Call code under test. An exception raised from inside the repository on an in-domain
@@ -118,6 +132,9 @@ def call(obs, facet, fn, *args, **kwargs):
         who, where = classify_exception(exc)
         if who == 'setigen':
             obs.fail(f'raises:{facet}:{where}', repr(exc)[:300])
+            return False, exc
+        if _oracle_tripped(exc, who, where):
+            obs.fail(f'unprocessable_result:{facet}:{where}', repr(exc)[:300])
             return False, exc
         raise HarnessError(f'{facet}: {where}: {exc!r}\n' + ''.join(
             traceback.format_exception(type(exc), exc, exc.__traceback__))[-3000:])
@@ -172,10 +189,13 @@ def safe_run_case(mod, case, ctx):
         raise
     except BaseException as exc:
         who, where = classify_exception(exc)
-        if who != 'setigen':
-            raise
         obs = Obs()
-        obs.fail(f'raises:unguarded:{where}', repr(exc)[:300])
+        if who == 'setigen':
+            obs.fail(f'raises:unguarded:{where}', repr(exc)[:300])
+        elif _oracle_tripped(exc, who, where):
+            obs.fail(f'unprocessable_result:{where}', repr(exc)[:300])
+        else:
+            raise
         return obs
 
 
